@@ -816,7 +816,8 @@ pub fn main_for(sc: &dyn Scenario, a: &Args) -> i32 {
     // required probes
     for p in sc.required_probes(a.tier) {
         let n = m["probes"].get(p).and_then(|x| x.as_u64()).or_else(|| m["faults"].get(p).and_then(|x| x.as_u64())).unwrap_or(0);
-        if n == 0 && a.runs.is_none() {
+        // a batch cut short by the wall-clock cap is partial: probes of phases it did not reach are not held against it
+        if n == 0 && a.runs.is_none() && m["timed_out"].as_bool() != Some(true) {
             harness_errors.push(format!("probe {p} never fired: the exploration does not reach what it claims"));
         }
     }
